@@ -227,7 +227,7 @@ class StubServer:
         pass
 
 
-def drive(S, raw, app, version):
+def drive(S, raw, app, version, split_at=None):
     base = S.WSGIRequestHandler
 
     class H(base):
@@ -254,7 +254,15 @@ def drive(S, raw, app, version):
 
     t = threading.Thread(target=run, daemon=True)
     t.start()
-    c.sendall(raw)
+    if split_at:
+        # the request arrives in two TCP segments with a pause between them
+        c.sendall(raw[:split_at])
+        import time as _time
+
+        _time.sleep(0.03)
+        c.sendall(raw[split_at:])
+    else:
+        c.sendall(raw)
     try:
         c.shutdown(socket.SHUT_WR)
     except OSError:
@@ -362,7 +370,7 @@ def check_exchange(S, rec, rng):
     version = rng.choice(["HTTP/1.0", "HTTP/1.1"])
     seen = {}
 
-    plan = rng.choice(["normal"] * 6 + ["restart_with_length", "raise_before_body", "restart_without_length", "empty_headers", "empty_headers", "raise_mid_body", "raise_mid_body"])
+    plan = rng.choice(["normal"] * 6 + ["restart_with_length", "raise_before_body", "restart_without_length", "empty_headers", "empty_headers", "raise_mid_body", "raise_mid_body", "unencodable_header"])
     mid_empty = plan == "raise_mid_body" and rng.random() < 0.5  # ... with an empty response header list
     if plan == "empty_headers" or mid_empty:
         with_cl = False
@@ -378,6 +386,11 @@ def check_exchange(S, rec, rng):
         try:
             return app_body(environ, start_response)
         except ZeroDivisionError:
+            raise
+        except UnicodeEncodeError:
+            if plan == "unencodable_header":
+                raise  # the write() callable reports the unencodable header to the application: expected
+            seen.setdefault("error", "UnicodeEncodeError")
             raise
         except Exception as e:  # noqa: BLE001 - reading a well-formed request body must not fail
             seen.setdefault("error", f"{type(e).__name__}: {e}")
@@ -417,6 +430,9 @@ def check_exchange(S, rec, rng):
                 h.append(("Content-Length", str(sum(map(len, chunks)))))
         if plan == "empty_headers" or mid_empty:
             h = []
+        if plan == "unencodable_header":
+            # fault: a header value that cannot be put on the wire (not latin-1) behind headers that can
+            h = h + [("Content-Disposition", 'attachment; filename="\u20ac.txt"')]
         if plan == "raise_mid_body":
             # fault: the application fails after its first body chunk went out
             start_response(status, h)
@@ -465,7 +481,12 @@ def check_exchange(S, rec, rng):
             drive(S, raw, app, version)  # history: this is the application's second request, served like the first
             seen.clear()
             rec.observe("second_request_with_the_same_header_list")
-        out = drive(S, raw, app, version)
+        split_at = None
+        if len(wire) > 2 and rng.random() < 0.08:
+            split_at = len(raw) - len(wire) + rng.randrange(1, len(wire))  # somewhere inside the request body
+            rec.observe("requests_arriving_in_two_segments")
+            case["body_split_at"] = split_at
+        out = drive(S, raw, app, version, split_at)
     except Exception as e:  # noqa: BLE001 - a socket timeout on a loaded machine is the harness' problem: inconclusive, never a violation
         rec.observe("exchange_harness_errors")
         rec.note(f"exchange harness error {type(e).__name__}: {e}")
@@ -506,6 +527,15 @@ def check_exchange(S, rec, rng):
     if seen["body"] != body:
         return bad("C19/request-body-differs", f"application read {seen['body']!r}, client sent {body!r}")
     # response side
+    if plan == "unencodable_header":
+        # the response cannot be delivered; what the client gets is nothing, or a well-formed error response - never
+        # the application's status line and headers with something else spliced behind them
+        rec.observe("responses_with_an_unencodable_header")
+        if out:
+            resp = parse_response(out)
+            if resp is None or resp["code"] != 500 or any(k == "X-App" for k, v in resp["headers"]) or b"HTTP/1." in resp["rest"][:2000]:
+                rec.violation("C19/spliced-response", f"the application's header list could not be encoded; the client received {out[:300]!r}; {case}", case, monitor="wire-parser")
+        return
     resp = parse_response(out)
 
     def rbad(key, msg):
